@@ -141,7 +141,7 @@ def run(ctx, rep):
     rep.floor('map index sites', by_cls.get('map-index', 0), 10)
 
     # ---- abstract runs ------------------------------------------------------
-    pa = W.get(ctx)
+    pa = W.get(ctx, rep)
     eng2, tree2 = dt_level(ctx)
     visited = dict(pa.visited)
     for k, v in eng2.visited.items():
